@@ -33,6 +33,10 @@ _MAPS = ("std::option::Option::map", "std::result::Result::map", "std::iter::Ite
 
 
 def _short(q):
+    if q.startswith("<") and " as " in q and ">::" in q:
+        ty, rest = q[1:].split(" as ", 1)
+        tr, m = rest.rsplit(">::", 1)
+        return "<%s as %s>::%s" % (ty.split("::")[-1], tr.split("::")[-1], m)
     p = q.split("::")
     return "::".join(p[-2:]) if len(p) > 1 else q
 
@@ -486,6 +490,11 @@ def census_of(ctx, f0):
                 except Exception:
                     continue
         items |= {i for i in SE.items if i.startswith(("call:", "agg:")) and not i.startswith("call:support::")}   # support:: = internals of tokio's select!
+        for c in T.calls():
+            rq = c.get("rq")
+            if (rq and rq.startswith("<") and rq in ctx.F.by_qname and "::proto::" not in rq
+                    and not any(x in rq for x in (" as std::clone::Clone>", " as std::fmt::", " as std::ops::Deref", " as std::ops::Drop>", " as std::default::Default>", " as std::future::", " as std::convert::"))):
+                items.add("call:%s" % _short(rq))          # an operator / trait call resolved to a workspace impl
     return sorted(i for i in items if not i.split(":", 1)[1].startswith(("tracing", "Span::", "Metrics", "Level", "Callsite", "DefaultCallsite", "ValueSet", "FieldSet", "Interest", "Event::", "Identifier", "Metadata", "Kind", "__macro", "Field::")))
 
 
@@ -622,6 +631,22 @@ def run(ctx, prop):
             ctx.ob(R, key, True, "same ingredients as the reference (%s), another std-level form" % e["why"], f.loc())
             continue
         if last["open"] and not newsel:
+            # unreadable in part - but when workspace calls of the reference are gone from the WHOLE function and other workspace
+            # calls took their place, the value is computed from other ingredients (not a std-level rewrite, not an extraction)
+            ref_calls = {i for v in rsk.values() for i in v if i.startswith("call:")}
+            ref_calls = {i.split("=", 1)[-1] for i in ref_calls} | {i.split("=", 1)[-1] for v in rsk.values() for i in v if "=call:" in i}
+            cur_all = set(census_of(ctx, fs[0]))
+            cur_rows = {i.split("=", 1)[-1] for v in sk.values() for i in v if "call:" in i}
+            gone = sorted(c for c in ref_calls if c not in cur_all)
+            came = sorted(c for c in cur_rows if c not in ref_calls)
+            if gone and came:
+                ctx.ob(R, key, False, "%s deviates from its reference meaning (%s): the calls %s of the reference are gone from the function and %s are used instead" % (_short(q), e["why"], gone, came), f.loc())
+                continue
+            if e.get("decided_only"):
+                # comparison / equality / hash of a key or order type: the structural comparison has a readable form (derived, or a
+                # one-line delegation); an implementation with loops or accumulators is another comparison until shown otherwise
+                ctx.ob(R, key, False, "%s is not written as the structural comparison of its contents (%s): it computes its result through locals / a loop the reference does not have - equal and unequal values may be confused" % (_short(q), e["why"]), f.loc())
+                continue
             ctx.note("%s %s: a returned value goes through a local or a closure that cannot be read - not decided" % (R, _short(q)))
             ctx.ob(R, key, True, "undecided shape (not reported)", f.loc())
             continue
